@@ -257,7 +257,7 @@ func (h *harness) rangeProof(keys map[string]*paillier.SecretKey, flipBudget int
 		lBig := new(big.Int).Lsh(big.NewInt(1), 256)
 		l := must(num.NPlus().FromNatCT(numct.NewNatFromBig(lBig, lBig.BitLen())))
 		rec := &recReader{r: r}
-		proto := must(paillierrange.NewPaillierRange(128, l, sk, rec))
+		proto := must(paillierrange.NewPaillierRange(128, l, sk.Public(), rec)) // as a verifier has it: the public key
 		n := sk.PlaintextGroup().Modulus()
 		mk := func() (*paillierrange.Statement, *paillierrange.Witness) {
 			xb := r.BigBelow(lBig) // the witness range [0, l)
